@@ -8,7 +8,7 @@
    - Model/Scte.v: `new_scte35`, the model of scte35.NewSCTE35 (repaired code for F8 and the two loops);
    - Proofs/ScteDecode.v: `wf_fixed` = the field ranges of the fixed part only (used by the rejections, which
      must not assume a well-formed command / descriptor list). *)
-From Gots Require Import Base.Prelude Model.Pts Model.Scte Spec.Scte35Spec Proofs.ScteExpected Proofs.ScteDecode Proofs.ScteReject Proofs.ScteWitness08.
+From Gots Require Import Base.Prelude Model.Pts Model.Scte Spec.Scte35Spec Proofs.ScteExpected Proofs.ScteDecode Proofs.ScteReject Proofs.ScteWitness08 Proofs.SctePadded.
 Import Scte Scte35Spec.
 Local Open Scope N_scope.
 
@@ -19,6 +19,13 @@ Local Open Scope N_scope.
 Theorem C08_decode_ser : forall s, supported s -> new_scte35 (ser_splice_info s) = Ok (expected s).
 Proof. exact decode_ser. Qed.
 Print Assumptions C08_decode_ser.
+
+(* the same with ANY bytes after the section (PSI payloads are padded with 0xFF up to the packet boundary):
+   `padded s tr` = pointer_field, filler, section, tr; all getters as above, Data() = section ++ tr *)
+Theorem C08_decode_ser_padded : forall s tr, supported s ->
+  new_scte35 (padded s tr) = Ok (set_data (expected s) (ser_section s ++ tr)).
+Proof. exact decode_ser_padded. Qed.
+Print Assumptions C08_decode_ser_padded.
 
 Theorem C08_supported_of_wf : forall s, wf_splice_info s -> si_table_id s = 252 -> si_encrypted s = false ->
   len (si_pointer s) < 255 -> supported_cmd (si_cmd s) -> supported s.
